@@ -268,6 +268,27 @@ func engineIndexScan(ctx *Ctx) {
 			sp.N = 300
 		}
 		base := vlib.GenCommands(r, sp)
+		if g := ctx.G(h); g%24 == 11 && len(base) > 1 {
+			// an entry that repeats one word tens of thousands of times in one field (a pasted log, a generated list): term
+			// frequencies around and beyond 2^16
+			K := []int{65535, 65536, 65537, 70000, 131075, 40000}[(g/24)%6]
+			w := vlib.Word(r, vlib.DBWords(base))
+			i := r.Intn(len(base))
+			switch r.Intn(3) {
+			case 0:
+				base[i].Description = strings.TrimSpace(strings.Repeat(w+" ", K))
+			case 1:
+				base[i].Command = base[i].Command + " " + strings.TrimSpace(strings.Repeat(w+" ", K))
+			default:
+				kw := make([]string, K)
+				for k := range kw {
+					kw[k] = w
+				}
+				base[i].Keywords = kw
+			}
+			ctx.R.Path("entries-with-a-word-repeated-around-65536-times", 1)
+		}
+		literal := h%4 == 3 // a database built at run time from plain entries (no loader involved), changed by editing what it holds
 		hist := []string{}
 		var db *database.Database
 		var cdb *database.CachedDatabase
@@ -275,6 +296,12 @@ func engineIndexScan(ctx *Ctx) {
 		mainP := filepath.Join(ctx.Scratch, fmt.Sprintf("m%d.yml", h))
 		persP := filepath.Join(ctx.Scratch, fmt.Sprintf("p%d.yml", h))
 		ok := ctx.R.Guard("C03", "load", sp, func() {
+			if literal {
+				db = &database.Database{Commands: vlib.StripCaches(base)}
+				hist = append(hist, fmt.Sprintf("literal(%d)", len(base)))
+				ctx.R.Path("histories-on-run-time-built-databases", 1)
+				return
+			}
 			switch r.Intn(3) {
 			case 0:
 				db = vlib.MustLoad(base)
@@ -344,13 +371,71 @@ func engineIndexScan(ctx *Ctx) {
 					earlier = append(earlier, issued{q, o})
 				}
 				c03Check(ctx, db, hist, q, o, where, via)
-				if k == 0 {
+				if k == 0 && !literal { // (a database that never went through the loader has no loaded twin to be compared with)
 					c03Twin(ctx, db, hist, q, where)
 				}
 			}
 			// next history step
 			if s == steps-1 {
 				break
+			}
+			if literal { // only plain entries ever enter such a database (nothing the loader prepared)
+				ctx.R.Guard("C03", "history-step", hist, func() {
+					words := vlib.DBWords(db.Commands)
+					reword := func(c *vlib.Cmd) { // new wording, same shape
+						switch r.Intn(3) {
+						case 0:
+							c.Description = vlib.GenQuery(r, words, 2+r.Intn(4), 0) + " " + vlib.RandWord(r)
+						case 1:
+							c.Command = vlib.Word(r, words) + " --" + vlib.RandWord(r)
+						default:
+							for k := range c.Keywords {
+								c.Keywords = append([]string(nil), c.Keywords...)
+								c.Keywords[k] = vlib.RandWord(r)
+							}
+							for k := range c.Tags {
+								c.Tags = append([]string(nil), c.Tags...)
+								c.Tags[k] = vlib.Word(r, words)
+							}
+						}
+					}
+					kind := r.Intn(4)
+					if len(db.Commands) == 0 {
+						kind = 3
+					}
+					switch kind {
+					case 0: // the next list is a copy of the entries being searched, some of them reworded
+						nl := append([]vlib.Cmd(nil), db.Commands...)
+						for k := 0; k < 1+r.Intn(3); k++ {
+							reword(&nl[r.Intn(len(nl))])
+						}
+						cdb.UpdateDatabase(nl)
+						hist = append(hist, fmt.Sprintf("UpdateDatabase(copy of the current %d entries, some reworded)", len(nl)))
+						where = "UpdateDatabase"
+					case 1: // entries edited where they are, then handed over again
+						for k := 0; k < 1+r.Intn(3); k++ {
+							reword(&db.Commands[r.Intn(len(db.Commands))])
+						}
+						cdb.UpdateDatabase(db.Commands)
+						hist = append(hist, "entries reworded in place, UpdateDatabase(same slice)")
+						where = "UpdateDatabase"
+					case 2: // a reworded duplicate of an existing entry is appended
+						dup := db.Commands[r.Intn(len(db.Commands))]
+						reword(&dup)
+						db.Commands = append(db.Commands, dup)
+						hist = append(hist, "append(reworded copy of an entry)")
+						where = "append"
+					default:
+						sp2 := sp
+						sp2.N = len(db.Commands) + r.Intn(3)
+						repl := vlib.StripCaches(vlib.GenCommands(r, sp2))
+						cdb.UpdateDatabase(repl)
+						hist = append(hist, fmt.Sprintf("UpdateDatabase(%d plain entries)", len(repl)))
+						where = "UpdateDatabase"
+					}
+					ctx.R.Path("steps-deriving-the-next-list-from-the-current-entries", 1)
+				})
+				continue
 			}
 			ctx.R.Guard("C03", "history-step", hist, func() {
 				switch r.Intn(7) {
